@@ -38,6 +38,7 @@ def make_array(rc, registry=None):
       layout: 'C' | 'F' | 'strided' | 'readonly' | 'view'   (default C)
       specials: [[flat index, 'nan'|'inf'|'-inf'|'-0'], ...] for float dtypes
       skip, rows: optional ints - drop the first `skip` rows, then keep only the first `rows` rows
+      masked: seed - (only when materialised for the simulated caller) wrap as numpy.ma.MaskedArray with a seeded mask
     `registry`, if given, receives (label, base buffer) pairs for caller-buffer checksums.
     """
     dt = np.dtype(rc['dtype'])
@@ -98,6 +99,12 @@ def make_array(rc, registry=None):
         a.flags.writeable = False
     if registry is not None:
         registry.append(base)
+        if rc.get('masked') is not None:
+            # the caller holds a numpy masked array (absent samples masked out): data buffer AND mask are the caller's memory
+            mask = np.frombuffer(random.Random(rc['masked']).randbytes(max(a.size, 1)), dtype=np.uint8)[:a.size].reshape(a.shape) < 80
+            registry.append(mask)
+            a = np.ma.MaskedArray(a, mask=mask, copy=False)
+            a._sharedmask = False
     return a
 
 
